@@ -11,6 +11,7 @@ np.trapz / np.trapezoid (y, x) 1-D: sum_k (x[k+1] - x[k]) (y[k+1] + y[k]) / 2.
 np.delete       (a, i) / (a, i, axis=0) for an integer i: row i removed, requires 0 <= i < len(a).
 ndarray.max/min over a 1-D array of symbolic length: attained at a witness position, bounds the elements (instances at
                 both ends).
+np.unique      (a, return_counts=True): U distinct values, multiplicities summing to len(a) (relational).
 np.argpartition (a, kth) 1-D, concrete kth: requires 0 <= kth < len(a) (numpy raises ValueError otherwise);
                 returns a permutation p of range(len(a)) with a[p[t]] <= a[p[kth]] for t < kth and
                 a[p[kth]] <= a[p[u]] for u > kth.  Relational contract: p is a fresh uninterpreted function; the
@@ -271,10 +272,34 @@ def symbolic_minmax(a, which):
     st.assume(sv.and_(sv.cmp(">=", W, 0), sv.cmp("<", W, n), sv.cmp("==", val, rd((W,)))))
     st.assume(sv.cmp(op, rd((0,)), val))
     st.assume(sv.cmp(op, rd((A.simp(sv.sub(n, 1)),)), val))
+    st.trace.append(("minmax", which, val, a))
     return val
 
 
+def np_unique(interp, a, return_counts=False, **kw):
+    """ASSUMED (relational) contract of np.unique(a, return_counts=True) for 1-D a of length n >= 1: U >= 1 distinct
+    values and their multiplicities; every multiplicity is >= 1 and they add up to n.  (Which values: not modelled.)"""
+    if kw:
+        raise EngineError("np.unique options")
+    a = _arr(a, interp)
+    if a.ndim != 1:
+        raise EngineError("np.unique of nd array")
+    n = a.shape[0]
+    U = sv.fresh_int("nuniq")
+    vf = z3.Function(sv.fresh_name("uniqval"), z3.IntSort(), z3.RealSort() if a.dtype == "float" else z3.IntSort())
+    cf = z3.Function(sv.fresh_name("uniqcnt"), z3.IntSort(), z3.IntSort())
+    st = cur()
+    st.assume(sv.and_(sv.cmp(">=", U, 0), sv.cmp("<=", U, n), sv.implies(sv.cmp(">=", n, 1), sv.cmp(">=", U, 1))))
+    vals = A.new_arr((U,), lambda idx: SV(vf(sv.znum(idx[0]))), a.dtype)
+    if not return_counts:
+        return vals
+    cnts = A.new_arr((U,), lambda idx: SV(cf(sv.znum(idx[0]))), "int")
+    st.assume(sv.cmp("==", Sum(0, U, lambda t: SV(cf(sv.znum(t)))), n))
+    return (vals, cnts)
+
+
 def register(lib):
+    lib.np["unique"] = LibFunc("np.unique", np_unique)
     A.SYMBOLIC_MINMAX[0] = symbolic_minmax
     lib.np["linalg.eig"] = LibFunc("np.linalg.eig", np_eig)
     lib.np["sort"] = LibFunc("np.sort", np_sort)
